@@ -102,3 +102,58 @@ Proof.
   - destruct x; reflexivity.
   - unfold canon. destruct x as [nm at_ nt te ct cd ad hi wt wd lo sz lfn]. destruct lfn; reflexivity.
 Qed.
+
+(** * removing an entry ([remove_entry] rewrites the directory without the first entry shown under the name) *)
+Lemma remove_first_spec (p:dirent -> bool) es :
+  (remove_first p es = es /\ forall x, In x es -> p x = false) \/
+  (exists a x b, es = a ++ x :: b /\ p x = true /\ (forall y, In y a -> p y = false) /\ remove_first p es = a ++ b).
+Proof.
+  induction es as [|y r IH]; [left; split; [reflexivity|intros x []]|]. change (remove_first p (y :: r)) with (if p y then r else y :: remove_first p r). destruct (p y) eqn:E.
+  - right. exists [], y, r. repeat split; [exact E|intros z []].
+  - destruct IH as [[I1 I2]|(a & x & b & I1 & I2 & I3 & I4)].
+    + left. split; [rewrite I1; reflexivity|]. intros x [<-|Hx]; [exact E|apply I2; exact Hx].
+    + right. exists (y :: a), x, b. rewrite I4, I1. repeat split; [exact I2|]. intros z [<-|Hz]; [exact E|apply I3; exact Hz].
+Qed.
+
+Lemma find_skip {A} (m:A -> bool) l1 x l2 : m x = false -> find m (l1 ++ x :: l2) = find m (l1 ++ l2).
+Proof. intros H. induction l1 as [|y r IH]; cbn [app find]; [rewrite H; reflexivity|]. destruct (m y); [reflexivity|exact IH]. Qed.
+
+(** frame: removing an entry does not change what the lookup of any name finds that the removed entry does not answer to *)
+Theorem remove_keeps_other_lookups p es m :
+  (forall x, In x es -> p x = true -> name_matches m x = false /\ name_matches_upper m x = false) ->
+  search_entry (remove_first p es) m = search_entry es m.
+Proof.
+  intros H. destruct (remove_first_spec p es) as [[E _]|(a & x & b & E & Hp & _ & Er)]; [rewrite E; reflexivity|].
+  rewrite Er. assert (Hin : In x es) by (rewrite E; apply in_or_app; right; left; reflexivity).
+  destruct (H x Hin Hp) as [H1 H2]. subst es. unfold search_entry.
+  assert (Hf : forall f l1 l2, filter f (l1 ++ x :: l2) = filter f l1 ++ (if f x then [x] else []) ++ filter f l2).
+  { intros f l1 l2. rewrite filter_app. cbn [filter]. destruct (f x); reflexivity. }
+  assert (G : forall q, q x = false -> find q (ge_dirs (a ++ b) ++ ge_files (a ++ b)) = find q (ge_dirs (a ++ x :: b) ++ ge_files (a ++ x :: b))).
+  { intros q Hq. unfold ge_dirs, ge_files. rewrite !Hf, !filter_app, !find_app_none.
+    assert (Hx : forall c : bool, find q (if c then [x] else []) = None) by (intros [|]; cbn [find]; rewrite ?Hq; reflexivity).
+    rewrite !Hx. reflexivity. }
+  rewrite (G _ H1), (G _ H2). reflexivity.
+Qed.
+
+Lemma remove_first_map (f:dirent -> dirent) p es : remove_first p (map f es) = map f (remove_first (fun x => p (f x)) es).
+Proof. induction es as [|y r IH]; [reflexivity|]. cbn [map remove_first]. destruct (p (f y)); [reflexivity|]. cbn [map]. rewrite IH. reflexivity. Qed.
+Lemma remove_first_forall (P:dirent -> Prop) p es : Forall P es -> Forall P (remove_first p es).
+Proof. induction 1 as [|y r Hy Hr IH]; [constructor|]. cbn [remove_first]. destruct (p y); [exact Hr|constructor; assumption]. Qed.
+
+(** through the device: the directory rewritten without the entry reads back as exactly that, and every lookup the removed
+    entry did not answer to finds what it found before *)
+Theorem removed_entry_through_device s c es0 p s' ch :
+  dev_ok (s_dev s) -> geom_ok s -> vt (ft s) -> 0 <= s_hint s -> c <> -1 ->
+  chain s c = (ch, true) -> Forall (inside s) ch -> vol_ok s ->
+  Forall entry_ok es0 ->
+  write_dir s c (remove_first p (map canon es0)) = Ok s' ->
+  read_dir s' c = Ok (remove_first p (map canon es0)) /\
+  forall m, (forall x, In x (map canon es0) -> p x = true -> name_matches m x = false /\ name_matches_upper m x = false) ->
+    search_entry (remove_first p (map canon es0)) m = search_entry (map canon es0) m.
+Proof.
+  intros Hd G Hv Hh Hc Hch Hin Hvol Hes Hw. split; [|intros m Hm; apply remove_keeps_other_lookups; exact Hm].
+  rewrite remove_first_map in *. set (es1 := remove_first (fun x => p (canon x)) es0) in *.
+  assert (H1 : Forall entry_ok es1) by (apply remove_first_forall; exact Hes).
+  assert (Hw' : write_dir s c es1 = Ok s') by (rewrite <- Hw; apply write_dir_ext; rewrite ser_dir_canon by exact H1; reflexivity).
+  exact (write_dir_read_dir s c es1 s' ch Hd G Hv Hh H1 Hc Hch Hin Hvol Hw').
+Qed.
